@@ -545,8 +545,15 @@ def check_filter(chk, main_tu, c_tu, it_c):
     chk.require(len(sp) == 1, 'c.c has %d sprintf calls that build an implementation file name' % len(sp))
     args = astdb.call_args(sp[0])
     fmt = astdb.string_value(args[1])
-    m = re.fullmatch(r'%c%0(\d+|\*)(l|ll)?u\.c', fmt or '')
     site = 'wasmCWriteImplementationFile:format'
+    mconv = re.fullmatch(r'%c%0?(\d+|\*)(hh|h|l|ll|z)?([xXo])\.c', fmt or '')
+    if mconv is not None:
+        chk.fail('R20.4', 'writer-format-shape',
+                 'implementation files are named with format %r: the index is printed in %s, so names contain characters outside [0-9] (index 10 '
+                 'gives "%s") - the cleaner pattern [sd][0-9]{10}.c and the sorted file list no longer cover what the writer creates, stale '
+                 'files survive -c' % (fmt, 'octal' if mconv.group(3) == 'o' else 'hexadecimal', ('%010' + mconv.group(3)) % 10), site, astdb.loc_str(sp[0]))
+        return
+    m = re.fullmatch(r'%c%0(\d+|\*)(l|ll)?u\.c', fmt or '')
     if m is None:
         raise AnalysisBroken('implementation files are named with format %r - unrecognised naming scheme' % fmt)
     vi = 3
@@ -586,7 +593,7 @@ def naming_sprintf(c_tu):
             if n.get('kind') == 'CallExpr' and astdb.callee_name(n) in ('sprintf', '__builtin_sprintf'):
                 a = astdb.call_args(n)
                 fmt = astdb.string_value(a[1]) if len(a) > 1 else None
-                if fmt and re.fullmatch(r'%c%0?(\d+|\*)(l|ll)?u\.c', fmt):
+                if fmt and re.fullmatch(r'%c%0?(\d+|\*)(hh|h|l|ll|z)?[uxXodi]\.c', fmt):
                     hits.append((n, f))
     return [h[0] for h in hits], (hits[0][1] if hits else None)
 
